@@ -211,7 +211,7 @@ func dirtyStrings(t *rapid.T, lay *ref.Layout, payload []byte, v2 bool) bool {
 
 func TestC02Gate(t *testing.T) {
 	rec := evid.New(t, "C02", "a reference-encoded, reference-checksummed dialect message must be delivered decoded; every single-bit flip of its bytes (plus byte substitutions, checksum swaps, foreign CRC_EXTRA) is fed to the reader and judged by the consumed-span oracle: a frame is delivered only if the bytes consumed are a frame the reference accepts; non-trivial = a damaged frame; distinct by hash of the damaged bytes")
-	rec.Require("flip-header", "flip-payload", "flip-checksum", "valid-delivered", "foreign-crc-extra", "flip-signature-block", "id>=65536", "signed-with-wrong-checksum", "valid-delivered-split", "non-canonical-frame-re-emitted", "non-canonical-v1-frame-re-emitted")
+	rec.Require("flip-header", "flip-payload", "flip-checksum", "valid-delivered", "foreign-crc-extra", "flip-signature-block", "id>=65536", "signed-with-wrong-checksum", "valid-delivered-split", "non-canonical-frame-re-emitted", "non-canonical-v1-frame-re-emitted", "same-frame-several-times-in-a-row")
 	dpool := pool(t)
 	maxFlipLen := 80
 	evid.Check(t, rec, evid.N(5000, 15000), func(t *rapid.T) {
@@ -272,6 +272,22 @@ func TestC02Gate(t *testing.T) {
 			t.Fatalf("a well-formed frame with the reference checksum was not delivered: %s (%s) bytes %x; delivered %d", gen.Describe(f), lay.MsgName, data, len(del))
 		}
 		rec.Case(false, 0, "valid-delivered")
+		// the same frame two to four times in a row, byte for byte (a transmitter that sends a prepared buffer, a
+		// sender that leaves the sequence number alone, a log recorded from two links): every copy is a well-formed
+		// frame with the right checksum, and every copy is delivered
+		{
+			k := rapid.IntRange(2, 4).Draw(t, "copies")
+			var rep []byte
+			for i := 0; i < k; i++ {
+				rep = append(rep, data...)
+			}
+			del, err := runOn(rep)
+			if err != nil || len(del) != k {
+				evid.ReplayNote("C02", "TestC02Gate", fmt.Sprintf("frame %x sent %d times in a row: %d delivered (%v)", data, k, len(del), err))
+				t.Fatalf("a well-formed %s frame with the reference checksum arrives %d times in a row, byte for byte: %d of the copies were delivered (%v): %x", lay.MsgName, k, len(del), err, data)
+			}
+			rec.Class("same-frame-several-times-in-a-row", 1)
+		}
 		// generation: the frame the reader delivered, written again by a writer with the same dialect, carries
 		// the checksum of the bytes that go out (whatever form the payload arrived in)
 		{
